@@ -3,6 +3,16 @@
 pub mod selftest;
 
 pub mod c01;
+pub mod c03;
+pub mod c04;
+pub mod c06;
+pub mod c07;
+pub mod c16;
+pub mod c11;
+pub mod c10;
+pub mod c08;
+pub mod c05;
+pub mod c18;
 
 use crate::conv;
 use crate::ctx::Ctx;
@@ -14,6 +24,16 @@ use owlchess::moves::Move;
 pub fn run(ctx: &mut Ctx) -> bool {
     match ctx.prop.as_str() {
         "C01" => c01::run(ctx),
+        "C03" => c03::run(ctx),
+        "C04" => c04::run(ctx),
+        "C06" => c06::run(ctx),
+        "C07" => c07::run(ctx),
+        "C16" => c16::run(ctx),
+        "C11" => c11::run(ctx),
+        "C10" => c10::run(ctx),
+        "C08" => c08::run(ctx),
+        "C05" => c05::run(ctx),
+        "C18" => c18::run(ctx),
         _ => return false,
     }
     true
@@ -22,6 +42,16 @@ pub fn run(ctx: &mut Ctx) -> bool {
 pub fn replay(ctx: &mut Ctx, case: &str) -> bool {
     match ctx.prop.as_str() {
         "C01" => c01::replay(ctx, case),
+        "C03" => c03::replay(ctx, case),
+        "C04" => c04::replay(ctx, case),
+        "C06" => c06::replay(ctx, case),
+        "C07" => c07::replay(ctx, case),
+        "C16" => c16::replay(ctx, case),
+        "C11" => c11::replay(ctx, case),
+        "C10" => c10::replay(ctx, case),
+        "C08" => c08::replay(ctx, case),
+        "C05" => c05::replay(ctx, case),
+        "C18" => c18::replay(ctx, case),
         _ => false,
     }
 }
